@@ -12,4 +12,4 @@ ASSUMPTIONS = [
     "documents of the namespace-free C01 domain (elements, attributes, text, tails, comments); namespaced documents are exercised by the oracle streams only",
     "similarity values (difflib.SequenceMatcher, sqrt) are an oracle recorded from the real node_ratio for every comparable pair",
 ]
-_cluster.make(sys.modules[__name__], 'C03', {'U4','U5','E2E','U2eq'}, [('equal',2500),('main',1500)], [('equal',40000),('main',30000),('ignored',10000)])
+_cluster.make(sys.modules[__name__], 'C03', {'U4','U5','E2E','U2eq'}, [('equal',2500),('main',1500),('near',1500)], [('equal',40000),('main',30000),('near',30000),('ignored',10000)])
